@@ -5,6 +5,7 @@ package hashprefix
 import (
 	"crypto/sha256"
 	"encoding/hex"
+	"errors"
 	"fmt"
 	"math/rand"
 	"sort"
@@ -255,7 +256,17 @@ type c19Seen struct {
 	Qtype     uint16   `json:"qtype"`
 	NQuestion int      `json:"questions"`
 	OtherRRs  []string `json:"other_records,omitempty"`
+	// Behaviour is empty for a faithful answer, else the way the service
+	// misbehaved on this request (see c19FailModes).
+	Behaviour string `json:"service_behaviour,omitempty"`
 }
+
+// c19FailModes are the ways the service can misbehave for a while.  Check
+// distinguishes only "error" (Exchange returns an error) from a response; the
+// other kinds are responses whose TXT answers are missing or incomplete, which
+// Check cannot tell from "the database lists nothing for these prefixes".
+var c19FailModes = []string{"error", "error", "error", "error", "servfail-no-answer", "refused-no-answer",
+	"noerror-no-answer", "truncated-partial-answer"}
 
 // c19Service is the in-memory lookup service: it answers with every full hash
 // of its database that starts with one of the asked prefixes, like the real
@@ -272,6 +283,12 @@ type c19Service struct {
 
 	malformedServed int
 	validServed     int
+
+	// failMode, when not empty, makes the service misbehave.
+	failMode string
+	// failedNow counts the requests of the current check that were served in
+	// a fail mode.
+	failedNow int
 }
 
 func (u *c19Service) Address() string { return "c19.lookup.example" }
@@ -300,6 +317,29 @@ func (u *c19Service) Exchange(req *dns.Msg) (*dns.Msg, error) {
 				}
 			}
 		}
+	}
+	if u.failMode != "" {
+		seen.Behaviour = u.failMode
+		u.log = append(u.log, seen)
+		u.failedNow++
+		switch u.failMode {
+		case "error":
+			return nil, errors.New("c19: injected failure of the lookup service (i/o timeout)")
+		case "servfail-no-answer":
+			resp.Rcode = dns.RcodeServerFailure
+		case "refused-no-answer":
+			resp.Rcode = dns.RcodeRefused
+		case "noerror-no-answer":
+		default: // truncated-partial-answer
+			resp.Truncated = true
+			if half := strs[:len(strs)/2]; len(half) > 0 {
+				resp.Answer = append(resp.Answer, &dns.TXT{
+					Hdr: dns.RR_Header{Name: req.Question[0].Name, Rrtype: dns.TypeTXT, Class: dns.ClassINET, Ttl: 60},
+					Txt: append([]string{}, half...),
+				})
+			}
+		}
+		return resp, nil
 	}
 	u.log = append(u.log, seen)
 	u.validServed += len(strs)
@@ -647,6 +687,11 @@ func c19RunHistory(rep *verifkit.Report, rng *rand.Rand, pool *c19Pool, sample b
 	prevDB := (*c19DB)(nil)
 	asked := map[string]time.Time{}
 	touched, checkedBefore := map[string]bool{}, map[string]int{}
+	// errAsked are the prefixes asked in a request that failed with an error,
+	// tainted those asked in a request answered with a degraded response;
+	// both since the last instant at which every entry had expired.
+	errAsked, tainted := map[string]bool{}, map[string]bool{}
+	failLeft := 0
 	small := cacheSize != 0 && cacheSize < 65536
 
 	witness := func(d c19Dom) func(extra map[string]any) any {
@@ -689,6 +734,7 @@ func c19RunHistory(rep *verifkit.Report, rng *rand.Rand, pool *c19Pool, sample b
 			}
 			asked = map[string]time.Time{}
 			touched, checkedBefore = map[string]bool{}, map[string]int{}
+			errAsked, tainted = map[string]bool{}, map[string]bool{}
 			trace = append(trace, c19Step{Op: op, AdvanceS: d.Seconds(), DB: cur})
 			rep.Event("clock_advances_past_expiry")
 			continue
@@ -703,6 +749,14 @@ func c19RunHistory(rep *verifkit.Report, rng *rand.Rand, pool *c19Pool, sample b
 			svc.cur = append(svc.cur, c19Hash(a))
 		}
 		svc.log = svc.log[:0]
+
+		// Service failures: a window of one to three consecutive checks.
+		if failLeft == 0 && rng.Intn(100) < 8 {
+			svc.failMode = c19FailModes[rng.Intn(len(c19FailModes))]
+			failLeft = 1 + rng.Intn(3)
+			rep.Event("service_failure_windows:" + svc.failMode)
+		}
+		svc.failedNow = 0
 
 		var got bool
 		var err error
@@ -721,6 +775,12 @@ func c19RunHistory(rep *verifkit.Report, rng *rand.Rand, pool *c19Pool, sample b
 		}
 		trace = append(trace, step)
 		wit := witness(d)
+		failedNow, failMode := svc.failedNow, svc.failMode
+		if failLeft > 0 {
+			if failLeft--; failLeft == 0 {
+				svc.failMode = ""
+			}
+		}
 
 		// Which part of the database matters for this name.
 		sharing := 0
@@ -757,6 +817,22 @@ func c19RunHistory(rep *verifkit.Report, rng *rand.Rand, pool *c19Pool, sample b
 			}
 			for _, l := range strings.Split(rest, ".") {
 				askedNow[l] = true
+			}
+		}
+		// Was one of the allowed prefixes in a failed request earlier?
+		afterErr, taintedHit := false, false
+		for _, a := range d.A {
+			p := c19Hash(a)[:4]
+			afterErr = afterErr || errAsked[p]
+			taintedHit = taintedHit || tainted[p]
+		}
+		if failedNow > 0 {
+			for l := range askedNow {
+				if failMode == "error" {
+					errAsked[l] = true
+				} else {
+					tainted[l] = true
+				}
 			}
 		}
 		source := "full-question"
@@ -817,10 +893,29 @@ func c19RunHistory(rep *verifkit.Report, rng *rand.Rand, pool *c19Pool, sample b
 		switch {
 		case panicked != nil:
 			rep.Violate("check-panicked", fmt.Sprintf("Check(%q) panicked: %v", d.Name, panicked), wit(nil))
+		case failedNow > 0:
+			// The statement does not say what a check answers while the
+			// service is failing: an error and either verdict are accepted.
+			rep.Unspec("outcome of a check during which the service failed (" + failMode + ")")
+			rep.Event("checks_during_service_failure:" + failMode)
+			if err != nil {
+				rep.Event("failing_checks_that_returned_an_error")
+			} else {
+				rep.Event("failing_checks_that_returned_a_verdict")
+			}
 		case err != nil:
-			// The service never fails here; what an error means for the
-			// verdict is outside the statement.
+			// The service did not fail in this check; what an error means for
+			// the verdict is outside the statement.
 			rep.Unspec("Check returned an error although the service answered")
+		case taintedHit:
+			// A SERVFAIL/REFUSED/empty/truncated *response* is, for Check, an
+			// answer that lists nothing (or less) for the asked prefixes, and
+			// is cached as such; like a database change inside the cache time
+			// this is outside the monitor's assumption.
+			rep.Unspec("verdict inside the cache time after a degraded non-error response for one of the prefixes")
+			if want != "unspecified" && map[bool]string{true: "blocked", false: "clean"}[got] != want {
+				rep.Event("not_judged:verdict_differs_from_fresh_one_after_degraded_response_was_cached")
+			}
 		case want == "unspecified":
 			rep.Unspec("database lists the ICANN suffix itself (" + map[bool]string{true: "private-suffix name", false: "bare suffix queried"}[d.Private] + ")")
 		default:
@@ -838,6 +933,12 @@ func c19RunHistory(rep *verifkit.Report, rng *rand.Rand, pool *c19Pool, sample b
 				}
 				if got && by != d.Name {
 					rep.Event("blocked_because_of_a_parent_domain")
+				}
+				if afterErr {
+					rep.Event("correct_verdicts_after_recovery_for_prefixes_of_a_failed_request")
+					if got {
+						rep.Event("blocked_verdicts_after_recovery_for_prefixes_of_a_failed_request")
+					}
 				}
 				if !got && sharing > 0 {
 					rep.Event("clean_although_service_returned_other_hash_with_same_prefix")
@@ -886,11 +987,15 @@ func c19RunHistory(rep *verifkit.Report, rng *rand.Rand, pool *c19Pool, sample b
 			if source == "no-question" || source == "partial-question" {
 				how = "from-cache"
 			}
+			if afterErr {
+				detail += ":after-upstream-error"
+			}
 			rep.Violate(fmt.Sprintf("verdict:want-%s-got-%s:%s:%s%s", want, gotS, how, cc, detail),
 				fmt.Sprintf("Check(%q) = %s, but a fresh lookup in the service database gives %s (step %d of the history, %s)",
 					d.Name, gotS, want, len(trace), source),
 				wit(map[string]any{"expected": want, "observed": gotS, "decided_by_subdomain": by,
-					"how_answered": source, "database_lists_disallowed_subdomain_of_kind": disIn,
+					"how_answered": source, "a_prefix_was_in_an_earlier_request_that_failed_with_an_error": afterErr,
+					"database_lists_disallowed_subdomain_of_kind":                               disIn,
 					"other_listed_hashes_sharing_a_prefix":                                      sharing,
 					"observed_equals_verdict_under_replaced_database_whose_entries_all_expired": explainedByExpired}))
 		}
@@ -912,7 +1017,7 @@ func c19RunHistory(rep *verifkit.Report, rng *rand.Rand, pool *c19Pool, sample b
 
 func TestVerifC19(t *testing.T) {
 	rep := verifkit.New("C19", "lookup",
-		"case = one Check(host) inside a history of 5-40 checks/clock advances sharing one Checker (cache size 10 B .. unlimited, cache time 5 s .. 1 h) against an in-memory lookup service with a database of full hashes; every request the service receives is compared with an independent enumeration of allowed sub-domains, every verdict with a fresh evaluation of the database in force; non-trivial = the database lists a hash that equals or shares its 2-byte prefix with a sub-domain of the host (or lists a sub-domain that must not count), or an earlier check since the last full expiry touched one of its prefixes (cache interaction); distinct by (host, database, revisit, n-th check of the host since expiry, cache size, cache time)")
+		"case = one Check(host) inside a history of 5-40 checks/clock advances sharing one Checker (cache size 10 B .. unlimited, cache time 5 s .. 1 h) against an in-memory lookup service with a database of full hashes that fails for 1-3 consecutive checks now and then (error, or SERVFAIL/REFUSED/empty/truncated response) and recovers; every request the service receives is compared with an independent enumeration of allowed sub-domains, every verdict with a fresh evaluation of the database in force; non-trivial = the database lists a hash that equals or shares its 2-byte prefix with a sub-domain of the host (or lists a sub-domain that must not count), or an earlier check since the last full expiry touched one of its prefixes (cache interaction); distinct by (host, database, revisit, n-th check of the host since expiry, cache size, cache time)")
 	defer func() {
 		if err := rep.Write(); err != nil {
 			t.Fatal(err)
@@ -923,7 +1028,8 @@ func TestVerifC19(t *testing.T) {
 	rep.EventN("pool_names_hashed", len(pool.names))
 	rep.EventN("pool_distinct_2byte_prefixes", len(pool.by))
 	rep.Assume("lower-case host names are passed to Checker.Check (DNSFilter.CheckHost lower-cases; letter case is exercised by the part \"filter\")")
-	rep.Assume("the lookup service is faithful: it returns every database hash that starts with an asked prefix and nothing for other prefixes; it never fails")
+	rep.Assume("the lookup service is faithful: whenever it answers normally it returns every database hash that starts with an asked prefix and nothing for other prefixes")
+	rep.Assume("after a degraded non-error response (SERVFAIL, REFUSED, no answer, truncated partial answer) verdicts for the asked prefixes are not judged until every entry has expired: Check cannot tell such a response from an empty listing")
 
 	n := verifkit.Pick(3000, 60000)
 	synctest.Run(func() {
@@ -940,6 +1046,8 @@ func TestVerifC19(t *testing.T) {
 		"clean_although_service_returned_other_hash_with_same_prefix",
 		"database_replaced_after_full_expiry", "verdict_follows_replaced_database_after_expiry",
 		"malformed_txt_strings_served", "blocked_because_of_a_parent_domain",
+		"checks_during_service_failure:error",
+		"blocked_verdicts_after_recovery_for_prefixes_of_a_failed_request",
 	}
 	for _, k := range need {
 		if ev[k] == 0 && !rep.Violated() {
